@@ -91,7 +91,11 @@ class C12(Prop):
         obs = {}
 
         def ilp(f):
-            r = call(f, mk(), limit=120)
+            from harness import ilpcap
+            store = []
+            with ilpcap.capture(store):
+                r = call(f, mk(), limit=120)
+            obs.setdefault("captures", {})[f.__name__] = store[0] if len(store) == 1 else None
             if r[0] != "ok":
                 return r
             val, status, axis, deleted = r[1]
@@ -127,8 +131,18 @@ class C12(Prop):
         r = obs.get("dp")
         if r and r[0] == "ok" and "axis" in r[1]:
             certs["dp_axis"], certs["dp_deleted"] = r[1]["axis"], r[1]["removed"]
-        return [{"op": "dom.nearly", "alts": alts, "orders": case["orders"], "brute": len(alts) <= 6,
+        reqs = [{"op": "dom.nearly", "alts": alts, "orders": case["orders"], "brute": len(alts) <= 6,
                  "certs": certs}]
+        self._cap_order = []
+        for fname, which in (("approx_SP_voter_deletion_ILP", "votdel"), ("approx_SP_alternative_deletion_ILP", "altdel")):
+            cap = obs.get("captures", {}).get(fname)
+            if cap is not None:
+                d = {"op": "ilp.model", "which": which, "alts": alts, "orders": case["orders"]}
+                if cap["solution"] is not None:
+                    d["solution"] = [[k, [round(v), 1]] for k, v in cap["solution"].items()]
+                reqs.append(d)
+                self._cap_order.append(fname)
+        return reqs
 
     def nontrivial_key(self, case, obs):
         return repr((case["alts"], case["orders"])) if len(case["orders"]) >= 2 else None
@@ -153,6 +167,21 @@ class C12(Prop):
                   f"{v['axis']}", key + "/certificate")
             if rep[minkey] is not None and round(v["value"]) != rep[minkey]:
                 P(f"{name} reports {v['value']}, the minimum is {rep[minkey]}", key + "/optimum")
+        from collections import Counter
+        from harness import ilpcap
+        fnames = [f for f in ("approx_SP_voter_deletion_ILP", "approx_SP_alternative_deletion_ILP")
+                  if obs.get("captures", {}).get(f) is not None]
+        for fname, mrep in zip(fnames, replies[1:]):
+            cap = obs["captures"][fname]
+            mine, theirs = Counter(ilpcap.model_constraints(mrep)), Counter(cap["constraints"])
+            if mine != theirs:
+                diff = list((theirs - mine).items())[:2] + list((mine - theirs).items())[:2]
+                out.append(Problem("disagreement", case, f"{fname}: the ILP handed to the solver differs from the model's "
+                                   f"constraint system ({sum((theirs - mine).values())} extra, "
+                                   f"{sum((mine - theirs).values())} missing), e.g. {diff}", "model/ilp-constraints"))
+            elif mrep["solutionFeasible"] is False:
+                out.append(Problem("disagreement", case, f"{fname}: the solver's (rounded) solution violates the model's "
+                                   "constraints", "model/ilp-solution"))
         r = obs.get("dp")
         if r is not None:
             if r[0] != "ok" or "malformed" in r[1]:
